@@ -426,6 +426,13 @@ func (c *Cluster) CrashAtStoreCall(n *SNode, k int, before bool) {
 	n.crashBefore = before
 }
 
+// DisarmCrashes cancels armed in-call crashes (used when faults stop).
+func (c *Cluster) DisarmCrashes() {
+	for _, n := range c.Nodes {
+		n.crashOrdinal = 0
+	}
+}
+
 // Step runs fn as one atomic step of node n under its clock, recovering
 // crash signals and kernel panics.
 func (c *Cluster) Step(n *SNode, kind string, fn func()) (ok bool) {
